@@ -111,7 +111,7 @@ def materialise(case, d):
         if rec.get('missing'):
             continue
         fcsgen.write(os.path.join(d, fname), to_fcs_spec(file_spec(rec, insts[rec['instrument']])))
-    it = pd.DataFrame([{'ID': i['id'], 'Description': 'instrument ' + i['id'], 'Forward Scatter Channel': i['fsc'],
+    it = pd.DataFrame([{'ID': i['id'], 'Description': 'instrument %s' % i['id'], 'Forward Scatter Channel': i['fsc'],
                         'Side Scatter Channel': i['ssc'], 'Fluorescence Channels': ', '.join(i['fl']),
                         'Time Channel': i['time']} for i in case['instruments']],
                       columns=['ID', 'Description', 'Forward Scatter Channel', 'Side Scatter Channel',
